@@ -194,7 +194,7 @@ def write_guard(repo: Repo) -> RuleRun:
         r.check(got_fixed == want_fixed, fixi, f"{label}: fixed = {sorted(got_fixed)}", f"after {label} ({seq}) the fixed set is {sorted(got_fixed)}, expected {sorted(want_fixed)}: an earlier fixing call is forgotten and a point the user fixed gets moved", fixi.node, key=f"fixed-accumulates:{label}")
     # the requested number of sweeps is carried out: a 1-D float model in which the LAST free point already sits at its neighbours'
     # average while the first ones are far from theirs (an early exit that looks at one point only would stop after one sweep)
-    nb2 = {1: [0, 2], 2: [1, 3], 3: [2, 5], 4: [5, 0]}
+    nb2 = {0: [1, 4], 1: [0, 2], 2: [1, 3], 3: [2, 5], 4: [5, 0], 5: [3, 4]}
     start = [0.0, 9.0, 9.0, 9.0, 5.0, 10.0]
     for iters in (1, 3):
         grid_ = Obj("grid")
